@@ -14,7 +14,7 @@ HANG_IS_VIOLATION = True     # every generated case terminates under the model: 
 ENGINE = "E-hyp"
 TECHNIQUE = "property-based testing with fault injection: generated programs with erroring operations at generated positions, histories of runs on one VM, compared with a model of the error/handler protocol"
 RULE = ("cases = histories of 1-4 runs on one VM; each run is a program of marker statements, nested call/forEach blocks, except__ constructs "
-        "(nested up to 3) and spawned scripts with 0-2 injected faults (operator type error, assert, non-boolean result in the exit behaviour of "
+        "(nested up to 3), try/catch constructs (transparent for runtime errors) and spawned scripts with 0-2 injected faults (operator type error, assert, non-boolean result in the exit behaviour of "
         "count/select/findIf/while, clobbered for-variable; optionally as right side of an assignment, as last statement, inside handler code); "
         "non-trivial = a fault in a behaviour / last-statement / spawned / nested-handler / in-handler / assignment position, or a history of >=2 runs "
         "containing a fault; distinct = SHA-1 of the history")
@@ -58,7 +58,7 @@ def _program(draw, depth=3, allow_spawn=True):
         for _ in range(draw(st.integers(0, n_max))):
             kinds = ["m", "m", "m", "fault"]
             if d > 0:
-                kinds += ["call", "loop", "except", "except", "exit"]
+                kinds += ["call", "loop", "except", "except", "exit", "try"]
                 if allow_spawn and not in_spawn and not handler:
                     kinds += ["spawn"]
             k = draw(st.sampled_from(kinds))
@@ -74,6 +74,9 @@ def _program(draw, depth=3, allow_spawn=True):
                 out.append(["except", nk(), lines(d - 1, in_spawn), lines(d - 1, in_spawn, 2, handler=True)])
             elif k == "exit":
                 out.append(["exit", lines(d - 1, in_spawn, 2, handler=handler)])
+            elif k == "try":
+                # try/catch is for `throw`: a runtime error inside the try block is not the catch block's business
+                out.append(["try", nk(), lines(d - 1, in_spawn, 3, handler=handler), lines(0, in_spawn, 2)])
             elif k == "spawn":
                 out.append(["spawn", nk(), lines(0, True, 3)])     # spawned scripts: markers and faults only
         return out
@@ -140,6 +143,13 @@ class Printer:
                 self.emit("if (true) exitWith {")
                 self.block(s[1], trace)
                 self.emit("};")
+            elif k == "try":
+                self.emit("try {")
+                self.block(s[2], trace)
+                self.emit("} catch {")
+                self.emit("%s pushBack %d;" % (trace, -s[1]))
+                self.block(s[3], trace)
+                self.emit("};")
             elif k == "spawn":
                 self.emit("[] spawn {")
                 self.emit("S%d = [];" % s[1])
@@ -173,6 +183,7 @@ class ErrModel:
         self.spawned = []
         self.assigned = []     # fault ids whose assignment must NOT have happened
         self.classes = set()
+        self.in_try = 0
 
     def run(self, prog):
         """returns (failed, set of candidate culprit fault ids, where)"""
@@ -218,6 +229,8 @@ class ErrModel:
                     self.classes.add("nested_handlers")
                 if in_handler:
                     self.classes.add("in_handler")
+                if getattr(self, "in_try", 0):
+                    self.classes.add("inside_try_catch")
                 if handlers == 0:
                     self.classes.add("unhandled")
                 else:
@@ -233,6 +246,13 @@ class ErrModel:
                 self.classes.add("exitwith")
                 self.scope(s[1], trace, handlers, in_handler)
                 raise _Leave()
+            elif k == "try":
+                # nothing throws in these programs: the catch block never runs, runtime errors pass through
+                self.in_try += 1
+                try:
+                    left = self.scope(s[2], trace, handlers, in_handler)
+                finally:
+                    self.in_try -= 1
             elif k == "except":
                 try:
                     self.scope(s[2], trace, handlers + 1, in_handler)
